@@ -144,6 +144,27 @@ func runScript(r *ev.Run, id caseID) {
 	q := storage.NewNotificationQueue()
 	go q.Run()
 	defer q.Close()
+	// what a follower's queue sees all the time: every replication worker asks for the number of
+	// waiters of its table every 50 ms, and other tables keep announcing applied indices
+	if id.Seed%2 == 1 {
+		stopBg := make(chan struct{})
+		defer close(stopBg)
+		go func() {
+			for i := uint64(1); ; i++ {
+				select {
+				case <-stopBg:
+					return
+				case <-time.After(50 * time.Millisecond):
+					q.Len("other-table")
+					if i%4 == 0 {
+						q.Notify("other-table", i)
+					}
+				}
+			}
+		}()
+		w.Script = append([]string{"(background: Len(other-table) every 50 ms, Notify(other-table) every 200 ms)"}, w.Script...)
+		r.Count("queue_scripts_with_background_traffic", 1)
+	}
 	var seq atomic.Int64
 	var ws []*waiter
 	maxNotified := map[string]int64{"a": -1, "b": -1} // highest revision for which Notify has been CALLED
@@ -323,6 +344,32 @@ func runScript(r *ev.Run, id caseID) {
 		x.cancel()
 	}
 	time.Sleep(2300 * time.Millisecond)
+	// every waiter is cancelled by now: those no notification has covered must have been answered
+	// (with their context's error) by the periodic sweep, without any further notification for
+	// their table - whatever else the queue is busy with. Bound: 2 sweep periods have passed,
+	// re-examined once after 3 more.
+	pollAll()
+	var unswept []*waiter
+	for _, x := range ws {
+		if !x.answered && int64(x.rev) > maxNotified[x.table] {
+			unswept = append(unswept, x)
+		}
+	}
+	if len(unswept) > 0 {
+		time.Sleep(3500 * time.Millisecond)
+		pollAll()
+		for _, x := range unswept {
+			if !x.answered {
+				if !callWithTimeout(8*time.Second, func() { q.Len(x.table) }) {
+					wedged("len while waiting for the sweep")
+					return
+				}
+				fail("cancelled-waiter-not-answered-by-the-sweep", fmt.Sprintf("w%d (table %s, revision %d, ctx %s) was cancelled 5.8 s ago (more than 5 sweep periods), no notification covers it, and it has not been answered", x.id, x.table, x.rev, x.kind))
+				return
+			}
+		}
+	}
+	r.Count("waiters_left_to_the_sweep_alone", int64(len(unswept)))
 	for _, t := range []string{"a", "b"} {
 		maxNotified[t] = 1 << 40
 		if !callWithTimeout(8*time.Second, func() { q.Notify(t, 1<<40) }) {
